@@ -65,7 +65,11 @@ def mc(res, work, module, name, consts, invariants, properties=(), spec="Spec", 
 def drive(work, cfgs, seed, depth, limit, nrandom, maxlen=14, mutant=None, tag="runs"):
     out = os.path.join(work, tag)
     shutil.rmtree(out, ignore_errors=True)
-    args = ["--cfgs", json.dumps(cfgs), "--seed", seed, "--out", out, "--depth", depth, "--limit", limit,
+    os.makedirs(work, exist_ok=True)
+    cf = os.path.join(work, tag + "_cfgs.json")        # (a file: configurations that name their schedules exceed the argv limit)
+    with open(cf, "w") as f:
+        json.dump(cfgs, f)
+    args = ["--cfgs", "@" + cf, "--seed", seed, "--out", out, "--depth", depth, "--limit", limit,
             "--random", nrandom, "--maxlen", maxlen]
     if mutant:
         args += ["--mutant", mutant]
